@@ -148,7 +148,7 @@ def run_case(rng, tier, idx):
     if not prescribed and not imperfect and not zero_state:
         D0, S0 = stencil(fint, np.zeros(n), cu)
         ref = k0uu @ cu
-        den = S0 + np.abs(k0uu) @ np.abs(cu); den = den + 1e-9 * den.max() + 1e-300
+        den = S0 + np.abs(k0uu) @ np.abs(cu); den = den + 1e-5 * den.max() + 1e-300
         c.judge('fint reduces to k0*c for vanishing amplitudes', float((np.abs(D0 - ref) / den).max()), 1e-9)
     # directional derivatives.  fint = k0*c + non-linear integrals: a row of fint can be orders of magnitude smaller than the
     # products |k0_ij c_j| it is summed from, and the stencil inherits that cancellation: 1e-6 of sum_j |k0_ij|(|c_j| + 2|dc_j|)
@@ -198,6 +198,44 @@ def run_case(rng, tier, idx):
     return c
 
 
+def classify_directional(c, model, fint, kT, cu, KT, k0uu, sc_free, n, plain):
+    """the same defect model for large systems, on three fixed directions instead of full Jacobians:
+    delta(t) = (kT(t v) - J(t v)) dc is fitted as d0 + t d1 + t^2 d2 at t = 0, 1, 2 and verified at t = 3; the Sanders findings
+    additionally need a vanishing second-order part and a symmetric fint Jacobian (dc_a . J dc_b = dc_b . J dc_a)"""
+    v = cu if np.any(cu) else sc_free * np.cos(1.0 + np.arange(n))
+    dcs = [sc_free * np.cos(0.7 * (k + 1) * (1.0 + np.arange(n))) for k in range(3)]
+    KTs = [kT(t * v) for t in range(4)]
+    nK = float(np.linalg.norm(KTs[1]))
+    ok_all = True
+    d2_small = True
+    Jd = []
+    for dc in dcs:
+        dl = []
+        for t in range(4):
+            D, _ = stencil(fint, t * v, dc)
+            dl.append(KTs[t] @ dc - D)
+            if t == 1:
+                Jd.append(D)
+        d2 = (dl[2] - 2 * dl[1] + dl[0]) / 2.
+        d1 = dl[1] - dl[0] - d2
+        pred3 = dl[0] + 3 * d1 + 9 * d2
+        noise = 1e-11 * nK * float(np.linalg.norm(dc))
+        if np.linalg.norm(dl[3] - pred3) > 1e-6 * (np.linalg.norm(dl[3]) + np.linalg.norm(dl[1])) + 20 * noise:
+            ok_all = False
+        if plain and np.linalg.norm(dl[0]) > 20 * noise:
+            ok_all = False
+        ref = np.linalg.norm((KTs[1] - k0uu) @ dc) + 1e-300
+        if np.linalg.norm(d2) > 1e-8 * ref + 20 * noise:
+            d2_small = False
+    asym = max(abs(float(dcs[a] @ Jd[b] - dcs[b] @ Jd[a])) / (abs(float(dcs[a] @ Jd[b])) + abs(float(dcs[b] @ Jd[a])) + 1e-300)
+               for a in range(3) for b in range(a + 1, 3))
+    c.info['tangent_discrepancy'] = {'mode': 'directional', 'polynomial_degree_le_2_confirmed_at_t3': bool(ok_all),
+                                     'second_order_part_negligible': bool(d2_small), 'fint_jacobian_asymmetry_on_direction_pairs': float(asym)}
+    if ok_all and model.startswith('clpt_sanders') and not (d2_small and asym <= 1e-9):
+        return None
+    return 'shell-tangent-inconsistent-with-fint-' + model if ok_all else None
+
+
 # models for which a tangent inconsistency was found on the pinned tree (known_findings.json)
 SUSPECT_MODELS = ('clpt_sanders_bc2', 'clpt_sanders_bc3', 'fsdt_donnell_bcn', 'fsdt_donnell_bc1')
 
@@ -208,8 +246,10 @@ def classify(c, cc, model, fint, kT, cu, KT, k0uu, sc_free, n, plain=True):
     of the assembled tangent disagrees with the corresponding term of fint.  With prescribed amplitudes or an
     imperfection (which do not scale with t) the same defect leaves a constant part: Delta(t) = d0 + t d1 + t^2 d2,
     fitted at t = 0, 1, 2 and verified at t = 3."""
-    if model not in SUSPECT_MODELS or n > 80:
+    if model not in SUSPECT_MODELS:
         return None
+    if n > 80:
+        return classify_directional(c, model, fint, kT, cu, KT, k0uu, sc_free, n, plain)
 
     def jac(c_):
         J = np.zeros((n, n))
